@@ -8,7 +8,8 @@ from .jacobi import (  # NOQA
     jacobi_der,
     jacobi_der_seq,
     jacobi_sum_clenshaw,
-    jacobi_sum_clenshaw_der
+    jacobi_sum_clenshaw_der,
+    _as_sequence
 )
 from .cheby import (  # NOQA
     cheby1,
@@ -109,7 +110,8 @@ def sum_of_2d_modes(modes, weights):
         ndarray of shape (m, n) that is the sum of modes as given
 
     """
-    modes = np.asarray(modes)
+    # modes may be any iterable of arrays, also one that can be traversed only once
+    modes = np.asarray(_as_sequence(modes))
     weights = np.asarray(weights)
     # keep the (possibly reduced) precision of the modes, but never cast the
     # weights to a kind that cannot hold them (float -> int/bool, complex -> real)
@@ -202,7 +204,7 @@ def lstsq(modes, data):
     """
     mask = np.isfinite(data)
     data = data[mask]
-    modes = np.asarray(modes)
+    modes = np.asarray(_as_sequence(modes))
     modes = modes.reshape((modes.shape[0], -1))  # flatten second dim
     modes = modes[:, mask.ravel()].T  # transpose moves modes to columns, as needed for least squares fit
     c, *_ = np.linalg.lstsq(modes, data, rcond=None)
